@@ -15,7 +15,7 @@ class MetaOnly(Suite):
             "(fresh, edited, holding a listing file or a symlink/directory with that name); non-trivial = >= 1 selected path, distinct")
 
     def gen(self, rng, tier):
-        n = {"quick": 200, "thorough": 5000, "search": 100}[tier]
+        n = {"quick": 400, "thorough": 5000, "search": 100}[tier]
         ops = []
         for _ in range(n):
             bigp = None
@@ -45,9 +45,26 @@ class MetaOnly(Suite):
                 tree = [e for e in tree if e["p"] != META and not e["p"].startswith(META + "2f")] + [ent]
                 # (no children below a directory of that name: the statement excepts the name itself only)
                 tree.sort(key=lambda e: gen.pathkey(bytes.fromhex(e["p"])))
+            near = None
+            if rng.random() < 0.2:
+                # a selected top-level entry whose name is NEAR the listing name (what an implementation might use as a staging / backup /
+                # lock name for the listing): it is an ordinary entry and must arrive like any other
+                nm = b".fsutil-metadata" + rng.choice([b".tmp", b".tmp", b"~", b".new", b".lock", b".bak", b".swp", b".part", b".old", b"-tmp", b".1"])
+                if rng.random() < 0.1:
+                    nm = b".tmp" + nm
+                kind = rng.choice(["file", "file", "symlink"])
+                files = [e["p"] for e in tree if e["t"] == "file" and b"/" not in bytes.fromhex(e["p"])]
+                near = hx(nm)
+                ent = {"p": near, "t": kind, "uid": 0, "gid": 0, "mt": gen.MTIMES[2], "mode": 0o644}
+                if kind == "file":
+                    ent["size"] = rng.choice([5, 100])
+                else:
+                    ent["ln"] = rng.choice(files) if files else hx(b"a")
+                tree = [e for e in tree if e["p"] != near and not e["p"].startswith(near + "2f")] + [ent]
+                tree.sort(key=lambda e: gen.pathkey(bytes.fromhex(e["p"])))
             paths = [e["p"] for e in tree if e["p"] != META and not e["p"].startswith(META + "2f")]
             r = rng.random()
-            if r < 0.1:
+            if r < 0.1 and near is None:
                 sel = []
             elif r < 0.25:
                 sel = list(paths)
@@ -58,6 +75,10 @@ class MetaOnly(Suite):
             else:
                 sel = [p for p in paths if rng.random() < 0.4]
             by = {e["p"]: e for e in tree}
+            if near is not None and near not in sel:
+                sel.append(near)
+                if by[near]["t"] == "symlink" and by[near]["ln"] in by and by[near]["ln"] not in sel:
+                    sel.append(by[near]["ln"])
             if bigp is not None:
                 sel = [p for p in sel if p != bigp and not (by[p]["t"] == "hardlink" and by[p]["ln"] == bigp)]
             # closed under link sources
